@@ -138,8 +138,16 @@ def run(tier, seed):
         b'event: response.output_text.delta\r\ndata: {"type":"response.output_text.delta","delta":"he"}\r\n\r\n: comment\r\ndata: {"type":"response.output_text.delta",\ndata: "delta":"llo"}\n\ndata: {not json}\n\ndata: [DONE]\n\n',
         b'data: {"type":"response.output_text.delta","delta":"\xc3\xa9\xe2\x82\xac"}\n\nevent: x\ndata: [DONE]\n\ndata: {"type":"response.output_text.delta","delta":"tail"}',
     ]
+    # every way a body can END without the terminal marker: after a complete event, inside the blank line that ends the last
+    # event (a lone CR, CR LF CR, LF CR), after an unterminated data line - with events already delivered before it
+    two = b'data: {"type":"response.output_text.delta","delta":"a"}\r\n\r\ndata: {"type":"response.output_text.delta","delta":"b"}'
+    ends = [b"", b"\n", b"\r", b"\r\n", b"\r\n\r", b"\n\r", b"\r\r", b"\n\n", b"\r\n\r\n", b"\r\n\r\ndata: {\"type\":\"response.completed\"}\r\n\r"]
+    nframing0 = len(framing)
+    framing += [two + e_ for e_ in ends]
     for k, body in enumerate(framing):
         step = 1 if thorough else 4
+        if k >= nframing0:
+            step = 1 if thorough else 9
         cuts = [[p] for p in range(1, len(body), step)]
         rcases.append({"id": f"f{k}", "mode": "run", "hex": body.hex(), "partitions": [[]] + cuts, "_expect": None, "_stream": None})
     rres = run_harness("sse", [{k: c[k] for k in c if not k.startswith("_")} for c in rcases], wd, "run", shards=14, timeout=2400)
